@@ -39,9 +39,13 @@ RJUP = 71492000.0
 tf = st.floats(30.0, 6000.0)
 
 
+STRATA = {'npoint': 2, 'guillot': 2, 'array': 1, 'rodgers': 1, 'file': 1, 'isothermal': 1}
+STRATA_KEY = 'kind'
+
+
 @st.composite
-def _case(draw):
-    kind = draw(st.sampled_from(['npoint', 'guillot', 'array', 'rodgers', 'npoint', 'file', 'isothermal', 'guillot']))
+def _case(draw, kind=None):
+    kind = kind or draw(st.sampled_from(['npoint', 'guillot', 'array', 'rodgers', 'npoint', 'file', 'isothermal', 'guillot']))
     nl = draw(st.sampled_from([2, 3, 5, 7, 10, 11, 17, 24, 30, 49, 50, 64, 100, 120, 4, 9]))
     c = {'kind': kind, 'nlayers': nl, 'lpmax': draw(st.floats(2.0, 8.0)), 'decades': draw(st.floats(0.5, 12.0)),
          'grid': draw(st.sampled_from(['log', 'log', 'arbitrary'])),
@@ -99,8 +103,8 @@ def _case(draw):
     return c
 
 
-def strategy(tier):
-    return _case()
+def strategy(tier, part=None):
+    return _case(part)
 
 
 def pressures(c):
